@@ -142,8 +142,8 @@ def simulate(toks, t, case):
         elif op == "movk":
             r, rest = arg.split("=")
             c, sh = rest.split("<<")
-            old = regs.get(int(r), 0)
-            regs[int(r)] = (old & ~(0xFFFF << int(sh))) | (int(c) << int(sh))
+            old = regs.get(int(r), ("unset",))       # movk keeps the other bits of whatever the register held
+            regs[int(r)] = ((old & ~(0xFFFF << int(sh))) | (int(c) << int(sh))) if isinstance(old, int) else ("garbage",)
         elif op == "adrp":
             r, s = arg.split("=s")
             regs[int(r)] = ("page", int(s))
@@ -237,6 +237,78 @@ def run_case(case):
             any(a[0] == "i" and not -2 ** 31 <= a[1] < 2 ** 31 for a in case["args"][nreg:])
         errs = errs + ["FINDING:C17-x86-64-stack-argument-beyond-imm32" if wide else w]
     return " ".join(toks), errs
+
+
+def callpatch_frames(rnd, n):
+    """the frame the ABI builds for CallPatch's own constraints (flags, argument registers, align_stack, caller-saved registers) on every
+    target: executed on the concrete machine of harness/c16.py -- the patch must leave the stack pointer, the flags and every register
+    it declares where it found them.  Returns violation texts."""
+    import random
+
+    from gtirb_rewriting.patches import CallPatch
+    from harness import c16
+    bad = []
+    by_abi = {type(ab[1]).__name__: ab for ab in c16.abis()}
+    for t in targets():
+        ab = by_abi.get(type(t["abi"]).__name__)
+        if ab is None:
+            continue
+        names = [r.name for r in ab[1].all_registers()]
+        low = {}
+        for i, r in enumerate(ab[1].all_registers()):
+            for nm in r.sizes.values():
+                low[nm.lower()] = i
+        for _ in range(n):
+            nargs = rnd.randint(0, 8)
+            p = CallPatch(t["callee"], [rnd.randrange(0, 100) for _ in range(nargs)])
+            c = p.constraints
+            case = dict(abi=ab, flags=c.clobbers_flags, align=c.align_stack, preserve=c.preserve_caller_saved_registers, leaf=rnd.random() < 0.5,
+                        scratch=c.scratch_registers, clob=sorted({low[str(r).lower()] for r in c.clobbers_registers if str(r).lower() in low}),
+                        reads=sorted({low[str(r).lower()] for r in c.reads_registers if str(r).lower() in low}))
+            out, errs = c16.check_case(case, random.Random(rnd.randrange(1 << 30)))
+            for e in errs:
+                bad.append(f"{t['key']}: the frame built for a CallPatch with {nargs} arguments ({c16.case_line(case)}): {e}")
+    return bad
+
+
+def callable_argument_context(rnd):
+    """CallPatch argument callables receive the insertion context of the registered place: two or three CallPatches in one block (and
+    a plain insertion in front of them), each with a callable argument.  Returns a violation text or None."""
+    import gtirb
+    import gtirb_rewriting
+    from gtirb_rewriting.patches import CallPatch
+    from gtirb_test_helpers import add_code_block, add_proxy_block, add_symbol, add_text_section, create_test_module
+    from helpers import literal_patch
+    isa, ff, nop, ret = rnd.choice([(gtirb.Module.ISA.X64, gtirb.Module.FileFormat.ELF, b"\x90", b"\xc3"), (gtirb.Module.ISA.IA32, gtirb.Module.FileFormat.PE, b"\x90", b"\xc3"),
+                                    (gtirb.Module.ISA.ARM64, gtirb.Module.FileFormat.ELF, b"\x1f\x20\x03\xd5", b"\xc0\x03\x5f\xd6")])
+    ir, m = create_test_module(ff, isa)
+    _, bi = add_text_section(m, address=0x1000)
+    blocks = [add_code_block(bi, nop * 3 + ret) for _ in range(2)]
+    callee = add_symbol(m, "callee", add_proxy_block(m))
+    ctx = gtirb_rewriting.RewritingContext(m, [])
+    seen, want = [], []
+    step = len(nop)
+    b = rnd.choice(blocks)
+    offs = sorted(rnd.sample([0, step, 2 * step, 3 * step], rnd.randint(2, 3)))
+    if rnd.random() < 0.5:
+        ctx.insert_at(b, offs[0], literal_patch("nop"))
+    for o in offs:
+        def arg(ictx, _o=o):
+            seen.append((ictx.block is b, ictx.offset, _o))
+            return 7
+        ctx.insert_at(b, o, CallPatch(callee, [arg]))
+        want.append(o)
+    try:
+        ctx.apply()
+    except Exception as e:    # noqa
+        return f"{isa.name}: CallPatches with callable arguments at offsets {offs} of one block: apply raises {type(e).__name__}"
+    for same_block, got_off, reg_off in seen:
+        if not same_block or got_off != reg_off:
+            return (f"{isa.name}: the argument callable of the CallPatch registered at offset {reg_off} received a context with "
+                    f"{'another block' if not same_block else 'the block'} and offset {got_off} (registrations at {offs} of one block)")
+    if sorted(x[2] for x in seen) != want:
+        return f"{isa.name}: argument callables were called for offsets {sorted(x[2] for x in seen)}, registered {want}"
+    return None
 
 
 def case_line(case):
@@ -337,6 +409,14 @@ class C17(Prop):
                 viol.append(dict(what=w, input="ctxlevel.shared_patch_insertions(call_patch=True)", observed="", finding=None))
         for w in ctxlevel.convention_is_not_shared():
             viol.append(dict(what=w, input="ctxlevel.convention_is_not_shared()", observed="", finding=None))
+        for w in callpatch_frames(rndc, 30 if boosted else 6):
+            n += 1
+            viol.append(dict(what=w, input="callpatch_frames()", observed="", finding=None))
+        for _ in range(400 if boosted else 80):
+            n += 1
+            w = callable_argument_context(rndc)
+            if w:
+                viol.append(dict(what=w, input="callable_argument_context()", observed="", finding=None))
         seen, uniq = set(), []
         for v in viol:
             k = re.sub(r"\d+", "N", v["what"])[:60]
